@@ -480,3 +480,22 @@ VARIANTS += [
     dict(prop="C07", name="adder-y-not-padded", expect="WIRE-loop|addition_circuit:zip",
          edits=[dict(file=ASF, find="x.zip(y.chain(repeat(&AdditiveShare::ZERO))).enumerate()", replace="x.zip(y).enumerate()")]),
 ]
+
+VARIANTS += [
+    dict(prop="C07", name="known-value-h3-left", expect="POLY|share_known_value",
+         edits=[dict(file="ipa-core/src/protocol/basics/share_known_value.rs", find="            Role::H3 => Self::new(V::ZERO, value),", replace="            Role::H3 => Self::new(value, V::ZERO),")]),
+    dict(prop="C07", name="reshare-right-helper-uses-right-share", expect="POLY|reshare:sum-preserved",
+         edits=[dict(file="ipa-core/src/protocol/basics/reshare.rs", find="            let part2 = self.left() - r.0;", replace="            let part2 = self.right() - r.0;")]),
+    dict(prop="C07", name="reshare-mask-not-stored", expect="POLY|reshare:replicated",
+         edits=[dict(file="ipa-core/src/protocol/basics/reshare.rs", find="            Ok(Replicated::new(part1 + part2, r.1))", replace="            Ok(Replicated::new(part1 + part2, r.0))")]),
+]
+
+_ISE_OLD = "    /// Read bytes from the buffer.\n    ///\n    /// Returns [`Bytes`] with length `len` from the buffered data."
+VARIANTS += [
+    dict(prop="C17", name="eof-test-looks-at-front-chunk-only", expect="EOF|extend:finished-only-if-empty",
+         edits=[dict(file=SIF, find=_ISE_OLD, replace="    fn is_empty(&self) -> bool {\n        self.contiguous_len() == 0\n    }\n\n" + _ISE_OLD),
+                dict(file=SIF, find="            None if self.buffered_size > 0 => ExtendResult::Error(", replace="            None if !self.is_empty() => ExtendResult::Error(")]),
+    dict(prop="C17", name="eof-test-through-size-helper", benign=True,
+         edits=[dict(file=SIF, find=_ISE_OLD, replace="    fn is_empty(&self) -> bool {\n        self.buffered_size == 0\n    }\n\n" + _ISE_OLD),
+                dict(file=SIF, find="            None if self.buffered_size > 0 => ExtendResult::Error(", replace="            None if !self.is_empty() => ExtendResult::Error(")]),
+]
